@@ -111,6 +111,21 @@ CHECKS = {
             "Behavioural differential on generated objects and arguments. Exploration.",
             "behaviour sampled on 3 argument tuples per object; objects restricted to what cloudpickle serialises",
             "DESIGN.md §6 C16"),
+    "C15": ("PURE", "Hypothesis-generated object graphs (bound/class methods, method descriptors, nested partials with keywords, "
+                    "containers) round-tripped through loky's dumps/loads under both pickler back-ends and compared "
+                    "behaviourally; generated sequences of reducer-bearing operations with registry snapshots as invariant; "
+                    "generated two-executor programs on real processes observing where arguments/results arrive reduced and "
+                    "which pickler each worker uses",
+            "Round-trip + non-interference (metamorphic) relations over generated graphs and histories; the per-executor "
+            "scope and the pickler-at-submit clause are observed end-to-end on real worker processes. Exploration.",
+            "objects importable by reference; REAL part limited to 2 plain executors with 1-2 workers", "DESIGN.md §6 C15"),
+    "C19": ("PURE", "exhaustive grid over (MAX_DEPTH, depth, start method) for _check_max_depth and the constructor vs the "
+                    "statement; SIM histories (timeouts, respawns, memory-leak exits, resizes) with generated parent depth "
+                    "checking every execution's logged depth; Hypothesis-generated recursive driver programs on real processes "
+                    "under LOKY_MAX_DEPTH in {1,2,3,0,-1}",
+            "Exact bound: exhaustive on the 360-point grid (exhaustive for that part), exploration for the SIM histories "
+            "and the real recursion trees.",
+            "PURE substitutes MAX_DEPTH/_CURRENT_DEPTH in the module; REAL recursion limited to 4 levels", "DESIGN.md §6 C19"),
 }
 
 NOT_YET = {}
